@@ -875,7 +875,7 @@ JT_MISSING = "not j_has_trial(%s, trial_id)" % RR
 JT_FINISHED = "j_has_trial(%s, trial_id) and finished(j_trial(%s, trial_id).state)" % (RR, RR)
 
 
-def js_method(name, cases, types=None, requires=(), props=("C01", "C03", "C04", "C20"), returns_kind=None):
+def js_method(name, cases, types=None, requires=(), props=("C01", "C03", "C04", "C05", "C20"), returns_kind=None):
     R.spec(F, "JournalStorage." + name, props=list(props), types=types or {}, guarded_by="self._thread_lock",
            requires=JS_INV + SYNCED + list(requires), cases=cases, ensures_all=JS_INV + SYNCED,
            inline_callees=UNROLL1, modifies=JS_MOD, returns_kind=returns_kind)
